@@ -1225,6 +1225,9 @@ class _Frame:
                     self.I.call_function(init, args, kwargs, self_obj=obj)
                 return obj
             raise self.bad(f"construction of {fn.name} is not modelled", n)
+        if fn is float and len(args) == 1 and not kwargs and (type(args[0]).__name__ in ("Poly", "Rat", "Lin") or (isinstance(args[0], XArray) and args[0].size == 1)):
+            # float(x) of a symbolic / one-entry exact value: the value itself (exact arithmetic has no float kind)
+            return args[0].data[0] if isinstance(args[0], XArray) else args[0]
         if callable(fn) and not isinstance(fn, (Opaque,)):
             try:
                 return fn(*args, **kwargs)
@@ -1553,6 +1556,10 @@ def _np_abs(x):
     x = exact(x)
     if isinstance(x, XArray):
         return XArray(x.shape, [_np_abs(v) for v in x.data])
+    if isinstance(x, Poly):
+        # a symbolic value: constants take their absolute value; a non-constant one is a Jacobian determinant of a reference
+        # geometry assumed positively oriented (orientation is decided on concrete mirrored elements: R2.12, R7.11, R8.20)
+        return abs(x.const_value()) if x.is_const() else x
     return abs(x)
 
 
@@ -1735,6 +1742,7 @@ _NP_FUNCS = {
     "heaviside": lambda a, h0: _np_ewise2(a, h0, lambda x, h: Q(1) if x > 0 else Q(0) if x < 0 else h),
     "moveaxis": lambda a, s_, d_: _np_moveaxis(a, s_, d_),
     "put": lambda a, ind, v: _np_put(a, ind, v),
+    "average": lambda a, axis=None, weights=None, **k: _np_average(a, axis, weights),
     "count_nonzero": lambda a, axis=None, **k: (lambda A: sum(1 for x in A.data if not _same(exact(x), 0) and x is not False))(XArray.from_nested(a)) if axis is None else (_ for _ in ()).throw(XArrayError("np.count_nonzero along an axis is not modelled")),
     "vstack": lambda seq, **k: _np_concatenate([(lambda x: x.reshape(1, -1) if x.ndim == 1 else x)(XArray.from_nested(s_)) for s_ in seq], 0),
     "cumsum": lambda a, axis=None, **k: _np_cumsum(a, axis),
@@ -1815,6 +1823,34 @@ def _np_ravel_multi_index(multi, dims):
             idx = idx * d + v
         out.append(idx)
     return XArray((len(out),), out, "i")
+
+
+def _np_average(a, axis=None, weights=None):
+    """np.average: sum(w a) / sum(w) along an axis (1-D weights along that axis), or the plain mean"""
+    from .alg import Rat
+
+    A = XArray.from_nested(a)
+    if weights is None:
+        return A.mean(axis)
+    Wt = XArray.from_nested(weights)
+    if axis is None:
+        if Wt.shape != A.shape:
+            raise XArrayError("np.average without axis needs weights of the array's shape")
+        num = sum((x * w for x, w in zip(A.data, Wt.data)), 0)
+        den = sum(Wt.data, 0)
+        return (Rat.of(num) / Rat.of(den)) if isinstance(num, Poly) or isinstance(den, Poly) else num / den
+    axis = int(axis) % A.ndim
+    if Wt.ndim != 1 or Wt.shape[0] != A.shape[axis]:
+        raise XArrayError("np.average: weights must be 1-D along the axis")
+    moved = A.transpose(*([i for i in range(A.ndim) if i != axis] + [axis]))
+    n = A.shape[axis]
+    den = sum(Wt.data, 0)
+    out = []
+    for i in range(0, moved.size, n):
+        num = sum((x * w for x, w in zip(moved.data[i:i + n], Wt.data)), 0)
+        symbolic = any(type(v).__name__ in ("Poly", "Rat") for v in (num, den))
+        out.append(Rat.of(num) / Rat.of(den) if symbolic else num / den)
+    return XArray(moved.shape[:-1], out) if moved.ndim > 1 else out[0]
 
 
 def _np_cumsum(a, axis=None):
